@@ -126,7 +126,12 @@ def int_from_bytes(ba, byteorder='big', *, signed=False):
     if s0 == 0 and cnt == length:
       chunk = xs  # all bytes of x: sum is x itself (0 <= x < 256^length)
     else:
-      chunk = (xs // (256**s0)) % (256**cnt)
+      hv = e.notes.get('havoc_mod')
+      e.notes['havoc_mod'] = None  # exact: this is byte re-assembly
+      try:
+        chunk = (xs // (256**s0)) % (256**cnt)
+      finally:
+        e.notes['havoc_mod'] = hv
     r = r + chunk * (256**i)
     i = j
   return r
